@@ -218,6 +218,23 @@ def judge_union(pane, res, name, U, wrap, unwrap, members, v, cellinfo, cache):
         core.add_violation(res, {'kind': 'rejected_despite_member', **sig},
                            f"{desc} was rejected although member {winner[0]} accepts it alone (-> {core.srepr(winner[1], 60)})", cell, cost)
         return out
+    # convert() of plain interchange data is from_data of that data: the same left-most member (constructors go this way)
+    if values.is_interchange(data):
+        try:
+            cv = ('ok', unwrap(pane.convert(values.fresh(data), U)))
+        except ConvertError:
+            cv = ('rej', None)
+        except BaseException as e:  # noqa
+            if isinstance(e, (KeyboardInterrupt, SystemExit)):
+                raise
+            cv = ('raw', e)
+        res['transitions'] += 1
+        if cv[0] != 'raw' and (cv[0] != 'ok' or not values.typed_eq(cv[1], winner[1])):
+            core.add_violation(res, {'kind': 'convert_differs_from_from_data', **sig},
+                               f"convert({values.expr(data)[:60]}, {name} of Union[{cellinfo['A']}, {cellinfo['B']}]) gave {cv[0]} {core.srepr(cv[1], 50)} "
+                               f"({type(cv[1]).__name__}); the left-most accepting member (#{winner[0]}) alone returns {core.srepr(winner[1], 50)} ({type(winner[1]).__name__})",
+                               cell, cost)
+            return out
     if not values.typed_eq(out[1], winner[1]):
         core.add_violation(res, {'kind': 'not_leftmost', **sig},
                            f"{desc} returned {core.srepr(out[1], 70)} ({type(out[1]).__name__}); the left-most accepting member "
@@ -228,7 +245,9 @@ def judge_union(pane, res, name, U, wrap, unwrap, members, v, cellinfo, cache):
         x = out[1]
         try:
             d = pane.into_data(x, U)
-        except Exception as e:  # noqa
+        except BaseException as e:  # noqa: (also something that is not an Exception must not leave a conversion)
+            if isinstance(e, (KeyboardInterrupt, SystemExit)):
+                raise
             core.add_violation(res, {'kind': 'into_data_raises', 'exc': type(e).__name__, **sig},
                                f"into_data({core.srepr(x, 60)}, {name} of Union[{cellinfo['A']}, {cellinfo['B']}]) raised "
                                f"{type(e).__name__}: {core.sstr(e, 80)}", cell, cost)
